@@ -126,8 +126,28 @@ def step_set(ctx, data, doc_text, segs, value, prefix="set", history=None):
         for l in E.alias_sites(data, p.node):
             locs.add(l)
     if value is None and any(yp.anchor_of(p.node) for p in res):
-        ctx.count("abstain_null_onto_anchored")    # a null cannot carry an anchor in ruamel
-        return False
+        # a null cannot carry an anchor in ruamel: what the document should look like afterwards is not
+        # specified, but the set must still not crash and its result must still reload
+        ctx.count("null_onto_anchored_crash_and_reload_only")
+        try:
+            ptext = gp.render(segs, ".")
+        except ValueError:
+            return False
+        if ptext.startswith("/"):
+            return False
+        case = {"doc": doc_text, "path": ptext, "segs": segs, "value": repr(value), "history": list(history or []),
+                "state_before": yp.dump(data) if history else None}
+        ctx.evaluations += 1
+        try:
+            Processor(LOG, data).set_value(ptext, value, mustexist=True)
+        except YAMLPathException:
+            return True
+        except Exception as e:
+            ctx.violation(prefix + "/crash/%s@%s" % (type(e).__name__, where(e)), {
+                "case": case, "summary": "%s: %s" % (type(e).__name__, str(e)[:150])})
+            return True
+        reload_check(ctx, data, case, prefix)
+        return True
     img0 = E.image(data)
     try:
         for l in locs:
@@ -282,10 +302,21 @@ def gen_creation(rng, data):
             break
     if yp.is_set(node) or not isinstance(node, (dict, list)):
         return None
+    # an existing prefix may also end at a null (an empty placeholder, `key:`): the rest of the path is created in its place
+    nulls = ([(i, k) for i, (k, v) in enumerate(yp.own_items(node)) if v is None and isinstance(k, str) and k.isalnum()
+              and not k.lstrip("-").isdigit()] if isinstance(node, dict) else [(i, i) for i, v in enumerate(node) if v is None])
+    if nulls and rng.random() < 0.35:
+        i, ref = rng.choice(nulls)
+        segs.append(("KEY", ref) if isinstance(node, dict) else ("INDEX", ref))
+        loc += (i,)
+        node = None
     tail = []
-    cur_kind = "map" if isinstance(node, dict) else "seq"
-    cur_len = len(node)
-    existing = set(str(k) for k in node.keys()) if isinstance(node, dict) else set()
+    if node is None:
+        cur_kind, cur_len, existing = rng.choice(["map", "seq"]), 0, set()
+    else:
+        cur_kind = "map" if isinstance(node, dict) else "seq"
+        cur_len = len(node)
+        existing = set(str(k) for k in node.keys()) if isinstance(node, dict) else set()
     for j in range(rng.randrange(1, 4)):
         if cur_kind == "map":
             k = rng.choice(["n1", "n2", "zz", "new", "k9"] + (["7", "0"] if j else []))
@@ -335,7 +366,14 @@ def step_create(ctx, data, doc_text, rng, value, prefix="create", history=None, 
         return False
     # a KEY-typed segment creates a map, an INDEX-typed one a list; a tail KEY with integer text that
     # follows an INDEX-created list is an index into it
-    first_kind = par["t"]
+    null_prefix = par["t"] == "s" and par["v"][0] == "null"
+    if null_prefix:
+        if tail[0][0] == "KEY" and tail[0][1].lstrip("-").isdigit():
+            return False          # integer-looking key below a null: Hash or Array is not determined
+        first_kind = "seq" if tail[0][0] == "INDEX" else "map"
+        ctx.count("create_below_null_prefix")
+    else:
+        first_kind = par["t"]
     ntail = normalize_tail(tail, first_kind)
     if first_kind == "seq" and ntail[0][0] != "INDEX":
         return False
@@ -343,6 +381,10 @@ def step_create(ctx, data, doc_text, rng, value, prefix="create", history=None, 
         return False
     expected = E.image(data)
     epar = E.get(expected, loc)
+    if null_prefix:
+        fresh = {"t": first_kind, "a": None, "items": []}
+        expected = E.put(expected, loc, fresh)
+        epar = fresh
     if first_kind == "map":
         epar["items"].append([["str", ntail[0][1]], build_tail(ntail[1:], value)])
     else:
